@@ -10,7 +10,7 @@ from ..runner import Sub
 
 PROPERTY = "C08"
 RULE = (
-    "case = FLP (n 2..30, quota 1..n) / MCP (items, sets, set sizes with zero padding, quota 1..sets; generator and "
+    "case = DPP/MDPP (chip 4x4..10x10, quota, keep-out ranges, 1-3 probing ports; invariants: quota, distinct, never a keep-out cell or probing port, mask == allowed and unchosen) / FLP (n 2..30, quota 1..n, coordinates also outside the unit box) / MCP (items, sets, set sizes with zero padding, quota 1..sets; generator and "
     "hand-built memberships) + batch + per-row selection order streams. Invariants after every step: chosen == set "
     "of executed actions (all distinct), mask == not chosen, done first true exactly at step == quota, FLP "
     "distances[i] == min over chosen facilities (float64 from coordinates), MCP weights == original weights of "
@@ -19,8 +19,8 @@ RULE = (
 )
 ASSUMPTIONS = [
     "one quota per batch (the steps finish all rows on a shared counter)",
-    "decap placement (DPP/MDPP) needs external PDN data files that cannot be fetched here; its selection logic is "
-    "not exercised by this check (see DESIGN.md section 5)",
+    "decap placement (DPP/MDPP) runs on synthetic PDN matrices (vf/eda.py): the real data files cannot be fetched; the "
+    "selection logic does not depend on the physics, the reward is only required to be finite and per-row",
 ]
 ENVS = ["flp", "mcp"]
 
@@ -98,5 +98,71 @@ def execute(case, ctx):
     ctx.sample({"env": name, "cfg": cfg, "B": B, "actions_row0": A[0].tolist(), "reward_row0": float(rew[0])})
 
 
-SUBS = [Sub("episodes", execute, strategy=lambda tier: episode_cases(tier, ENVS), budget={"quick": 3000, "thorough": 40000}, shards=16)]
+def execute_decap(case, ctx):
+    """DPP / MDPP on synthetic PDN data: quota, distinctness, keep-out cells and probing ports never chosen,
+    mask == allowed and not yet chosen, done exactly at the quota."""
+    spec, env, inst, insts, ep = play(case, ctx, keep_states=True)
+    name, cfg = case["env"], case["cfg"]
+    ctx.event(f"env:{name}")
+    if ep.dead_end is not None or ep.cap_hit or ep.T == 0:
+        ctx.event("aborted_episode(C02 territory)")
+        return
+    B, k = len(insts), cfg["k"]
+    A = ep.actions_tensor()
+    ctx.check(ep.T == k, f"{name}||episode_length", f"episode took {ep.T} placements for the configured quota {k}",
+              {"actions": A.tolist(), "cfg": cfg})
+    for t in range(ep.T):
+        ctx.check(bool(ep.dones[t].all()) == (t + 1 >= k), f"{name}||done_at_quota",
+                  f"done={ep.dones[t].tolist()} after {t + 1} placements with quota {k}", {"actions": A.tolist()})
+    adjacent = False
+    for b in range(B):
+        allowed0 = inst["action_mask"][b].clone()  # generator: cells that are neither keep-out nor (single) probe
+        probes = inst["probe"][b]
+        if name == "mdpp":
+            allowed0 &= ~probes.bool()
+            forbidden_probe = set(torch.nonzero(probes.bool()).flatten().tolist())
+        else:
+            forbidden_probe = {int(probes.reshape(-1)[0])}
+        keepout = set(torch.nonzero(~inst["action_mask"][b]).flatten().tolist())
+        acts = A[b].tolist()
+        det = {"row": b, "actions": acts, "keepout": sorted(keepout), "probes": sorted(forbidden_probe), "quota": k}
+        chosen = set()
+        size = cfg["size"]
+        for t in range(ep.T):
+            want = [bool(allowed0[j]) and j not in chosen for j in range(allowed0.shape[0])]
+            if ep.masks[t][b].tolist() != want:
+                ctx.violation(f"{name}||mask_not_allowed_and_unchosen", f"mask before placement {t} is not 'allowed and not yet chosen'",
+                              {**det, "step": t})
+                break
+            a = acts[t]
+            if a in chosen:
+                ctx.violation(f"{name}||duplicate_selection", f"cell {a} chosen twice", det)
+            if a in keepout:
+                ctx.violation(f"{name}||keepout_cell_chosen", f"keep-out cell {a} chosen", det)
+            if a in forbidden_probe:
+                ctx.violation(f"{name}||probe_cell_chosen", f"probing port {a} chosen", det)
+            chosen.add(a)
+            r, c = divmod(a, size)
+            if any((r + dr) * size + (c + dc) in keepout for dr, dc in ((0, 1), (1, 0), (0, -1), (-1, 0))
+                   if 0 <= r + dr < size and 0 <= c + dc < size):
+                adjacent = True
+        ctx.check(len(chosen) == k, f"{name}||wrong_number_selected", f"{len(chosen)} distinct cells for quota {k}", det)
+    rew = ctx.guard(env.get_reward, ep.td.clone(), A.clone(), what=f"get_reward|{name}")
+    ctx.check(rew.reshape(-1).shape[0] == B and bool(torch.isfinite(rew).all()), f"{name}||reward_shape_or_nan",
+              f"reward {rew.tolist()}")
+    if k >= 2 and adjacent:
+        ctx.nontriv()
+    ctx.sample({"env": name, "cfg": cfg, "B": B, "actions_row0": A[0].tolist()})
+
+
+def preimport():
+    from ..eda import data_dir
+    data_dir()
+
+
+SUBS = [
+    Sub("decap", execute_decap, strategy=lambda tier: episode_cases(tier, ["dpp", "mdpp"]),
+        budget={"quick": 1200, "thorough": 16000}, shards=16),
+    Sub("episodes", execute, strategy=lambda tier: episode_cases(tier, ENVS), budget={"quick": 3000, "thorough": 40000}, shards=16),
+]
 TIME_CAP = {"quick": 300, "thorough": 2400}
